@@ -332,7 +332,7 @@ func (c *Client) Send(packet stanza.Packet) error {
 		_, isAnswer := packet.(stanza.SMAnswer)
 		if _, ok := packet.(stanza.SMRequest); !ok && !isAnswer {
 			toStore := stanza.UnAckedStz{Stz: string(data)}
-			c.Session.SMState.UnAckQueue.Push(&toStore)
+			c.holdUnacked(&toStore)
 		}
 	}
 
@@ -377,9 +377,21 @@ func (c *Client) SendRaw(packet string) error {
 	// See https://xmpp.org/extensions/xep-0198.html#scenarios
 	if c.config.StreamManagementEnable {
 		toStore := stanza.UnAckedStz{Stz: packet}
-		c.Session.SMState.UnAckQueue.Push(&toStore)
+		c.holdUnacked(&toStore)
 	}
 	return c.sendWithWriter(c.transport, []byte(packet))
+}
+
+// holdUnacked queues a sent stanza until the server acknowledges it. Stanzas are sent from any goroutine,
+// while acknowledgements are processed by the routing goroutines: the queue is accessed under its lock.
+func (c *Client) holdUnacked(stz *stanza.UnAckedStz) {
+	uaq := c.Session.SMState.UnAckQueue
+	if uaq == nil {
+		return
+	}
+	uaq.RWMutex.Lock()
+	uaq.Push(stz)
+	uaq.RWMutex.Unlock()
 }
 
 func (c *Client) sendWithWriter(writer io.Writer, packet []byte) error {
